@@ -22,7 +22,7 @@ MANIFEST = dict(
               'frame, width paths of every binary writer/reader pair; all normalise before matching: struct spellings, helper functions, '
               'early returns, locals) + vm_compute correspondence on eight models (two exhaustive on a small scope) + round-trip / '
               'second-generation / observer-effect oracle search on all eight writers',
-    text='Theorems in Props/C20.v (59): cmdseq.parse(cmdseq.write(v)) = v and byte-identical second generation for every configuration '
+    text='Theorems in Props/C20.v (62): cmdseq.parse(cmdseq.write(v)) = v and byte-identical second generation for every configuration '
          'satisfying the obligations regenerated from cmdseq.py; the scenes.image writer over the configuration regenerated from choreo.py '
          'produces the bytes of the container model for both input forms whatever the dict keys are, parses back (header, pool through '
          'the offset table, CRC-sorted table, v2/v3 summaries, blobs; LZMA as a hypothesis pair), its table is sorted by the stored '
@@ -40,7 +40,9 @@ MANIFEST = dict(
          'test `is not None`, a test that forgets a stack, a block guarded by presence); VMT: a name or value vmt._needs_quotes lets through '
          'is lexed back as that one string, a whole parameter line as name / value / newline, and the whole file of a parameter-only '
          'material as shader / { / the pairs in order / } for every decision table covering the empty string, leading / and #, and every '
-         'delimiter (table regenerated from vmt.py and tokenizer.py), so the file determines the material; SMD: conversions never touch and every data line splits at whitespace into exactly its fields; '
+         'delimiter (table regenerated from vmt.py and tokenizer.py), so the file determines the material; every line template of '
+         'Sound.export, regenerated as self-delimiting items, is lexed back as exactly its keywords and field values for all field values '
+         '(quoted raw fields without quote / backslash / line break, bare fields bare words); SMD: conversions never touch and every data line splits at whitespace into exactly its fields; '
          'Entry.from_scene: last-speak <= duration, sounds strictly sorted with exactly the used sounds, order independence. '
          'cmdseq, scenes.image (container, pool+sort), binary scene layout, scene summary, soundscript stacks (all 128 small states x '
          'histories of lazy reads) and VMT quoting (all strings of length <= 2 over 25 characters, parameter lines, whole files) models '
@@ -61,7 +63,7 @@ MANIFEST = dict(
 IMP_CS = ['Coq.Lists.List', 'Coq.NArith.NArith', 'Coq.ZArith.ZArith', 'Coq.Bool.Bool', 'SV.Fmt.CmdSeq', 'SV.Gen.CmdSeqFmt_gen']
 IMP_SMD = ['Coq.Lists.List', 'Coq.NArith.NArith', 'Coq.Arith.PeanoNat', 'Coq.Bool.Bool', 'SV.Fmt.SmdTpl', 'SV.Fmt.SmdWords', 'SV.Gen.SmdTpl_gen']
 IMP_IMG = ['Coq.Lists.List', 'Coq.NArith.NArith', 'Coq.Bool.Bool', 'SV.Fmt.ScenesImage']
-IMP_TXT = ['Coq.Lists.List', 'Coq.NArith.NArith', 'Coq.Bool.Bool', 'SV.Fmt.SndStacks', 'SV.Fmt.VmtQuote', 'SV.Fmt.TextFields', 'SV.Gen.TextFields_gen']
+IMP_TXT = ['Coq.Lists.List', 'Coq.NArith.NArith', 'Coq.Bool.Bool', 'SV.Fmt.SndStacks', 'SV.Fmt.VmtQuote', 'SV.Fmt.TextLines', 'SV.Fmt.TextFields', 'SV.Gen.TextFields_gen']
 IMP_CB = ['Coq.Lists.List', 'Coq.NArith.NArith', 'Coq.Bool.Bool', 'Coq.Arith.PeanoNat', 'SV.Fmt.ChoreoBin', 'SV.Gen.ChoreoBin_gen']
 IMP_IMGCFG = ['Coq.Lists.List', 'Coq.NArith.NArith', 'Coq.Bool.Bool', 'SV.Fmt.ScenesImage', 'SV.Fmt.ScenesImageCfg', 'SV.Gen.ScenesImg_gen']
 
@@ -1502,6 +1504,8 @@ def run(ck: Ck) -> None:
             'sndscript_version_2_keys_and_stacks_block_written_together_and_read_that_way':
                 'snd_v2_test_writes_version_2_and_the_stacks_block && snd_reader_force_is_version_eq_2 && snd_reader_stacks_exist_iff_block_present',
             'sndscript_stack_census_ok': 'SndStacks.guard_okb snd_v2_guard && SndStacks.blocks_okb snd_stack_blocks',
+            'sndscript_every_written_line_is_made_of_self_delimiting_items': 'Nat.eqb snd_lines_unstructured 0 && Nat.leb 10 (length snd_lines)',
+            'sndscript_every_written_line_has_bare_keywords_followed_by_whitespace_and_quoted_fields': 'forallb TextLines.items_ok snd_lines',
             'vmt_free_text_quoted_or_quoted_on_demand_except_shader': 'free_text_quoted_or_on_demand 1 vmt_fields',
             'vmt_field_census_nonempty': 'Nat.leb 5 (length vmt_fields)',
             'vmt_needs_quotes_covers_empty_comment_directive_and_every_delimiter': 'VmtQuote.nq_okb vmt_nq',
